@@ -78,6 +78,8 @@ Proof.
   - apply ck_sub_send. apply Hch. reflexivity.
   - apply ck_fold_in. intros w' x _. apply ck_modt; ckf.
   - destruct (done _); [apply ck_refl|apply ck_deactivate; apply Hch; reflexivity].
+  - apply ck_same_tss; reflexivity.
+  - apply ck_same_tss; reflexivity.
 Qed.
 
 Lemma ck_run_acts a l w : (forall ac, In ac l -> act_ok O P a ac) -> ckeeps a w (run_acts P sub a l w).
@@ -141,6 +143,7 @@ Proof.
       assert (HW : ckeeps a w W); [|destruct (crashed W)] end.
     { ct; [|apply ck_guard; intros; apply ck_sub_recur; exact Hc].
       ct; [|apply ck_sub_enterAll; exact Hc].
+      ct; [apply ck_run_acts; intros; eapply tracts_ok; eauto|].
       destruct (fm_original _); [apply ck_modt; ckf|apply ck_refl]. }
     + exact HW.
     + match goal with |- ckeeps a w (fst (if ?c then _ else _)) => destruct c end; cbn [fst].
